@@ -40,21 +40,23 @@ func takeSnap(l *ipfslog.IPFSLog) snap {
 	return s
 }
 
+// diff compares what the properties call the state of a log: its entries, its heads (as a set, also as published),
+// its linearised values, its size and its clock (observable through the next append). The order in which heads are
+// listed is reported by takeSnap but not compared: no property speaks about it.
 func (a snap) diff(b snap) string {
 	switch {
 	case !world.EqualStrings(a.Entries, b.Entries):
 		return fmt.Sprintf("entries %v -> %v", world.Shorts(a.Entries), world.Shorts(b.Entries))
 	case !world.EqualStrings(a.Heads, b.Heads):
 		return fmt.Sprintf("heads %v -> %v", world.Shorts(a.Heads), world.Shorts(b.Heads))
-	case !world.EqualStrings(a.HeadsSeq, b.HeadsSeq):
-		return fmt.Sprintf("heads order %v -> %v", world.Shorts(a.HeadsSeq), world.Shorts(b.HeadsSeq))
-	case !world.EqualStrings(a.JSON, b.JSON):
-		return fmt.Sprintf("json heads %v -> %v", world.Shorts(a.JSON), world.Shorts(b.JSON))
+	case !world.EqualStrings(world.SortedCopy(a.JSON), world.SortedCopy(b.JSON)):
+		return fmt.Sprintf("published heads %v -> %v", world.Shorts(a.JSON), world.Shorts(b.JSON))
 	case !world.EqualStrings(a.Values, b.Values):
 		return fmt.Sprintf("values %v -> %v", world.Shorts(a.Values), world.Shorts(b.Values))
 	case a.Len != b.Len:
 		return fmt.Sprintf("len %d -> %d", a.Len, b.Len)
 	case a.ClockID != b.ClockID || a.ClockT != b.ClockT:
+		// observable through the time of the next append
 		return fmt.Sprintf("clock (%x,%d) -> (%x,%d)", a.ClockID, a.ClockT, b.ClockID, b.ClockT)
 	}
 	return ""
